@@ -21,6 +21,9 @@ type decision struct {
 	Step uint64 `json:"s"`
 	Task int32  `json:"t"`
 	Kind uint8  `json:"k,omitempty"`
+	V    int64  `json:"v,omitempty"`
+	At   uint32 `json:"at,omitempty"`
+	Src  string `json:"at_src,omitempty"` // file:line of the statement the preempted task was about to execute (added by the orchestrator)
 }
 
 type violation struct {
